@@ -54,16 +54,23 @@ ObsHeap(S, ev) ==
            ELSE S.heap[id]]
 ApplyObs(S, ev) == [stack |-> SubSeq(S.stack, 1, ev.si) \o ev.sv, frames |-> ObsFrames(S, ev), globals |-> ObsGlobals(S, ev),
                     heap |-> ObsHeap(S, ev), ip |-> ev.ip, fn |-> ev.fn]
+Updated(ev) == {ev.h[j].id : j \in 1..Len(ev.h)}
 NewIds(S, ev) == {ev.h[j].id : j \in 1..Len(ev.h)} \ DOMAIN S.heap
 
 \* --------------------------------------------------- prescribed vs observed
-HeapMatch(P, O) == \A id \in DOMAIN O.heap : id \in DOMAIN P.heap /\ P.heap[id].k = O.heap[id].k /\ P.heap[id].m = O.heap[id].m
-                                             /\ SeqMatch(P.heap[id].v, O.heap[id].v)
-Diff(P, O, heapToo) ==
+\* a hash map is a set of key/value pairs: the order of its entries in the trace is the VM's bucket order
+PairSet(vs) == {<<vs[2 * i - 1], vs[2 * i]>> : i \in 1..(Len(vs) \div 2)}
+PairsMatch(ps, os) == Len(ps) = Len(os) /\ (ps = os \/ PairSet(ps) = PairSet(os))      \* map contents are concrete values (never wildcards)
+\* ids: the containers to compare -- those the instruction may touch and those the VM was seen to change; any other container is
+\* the same object in P, O and the state before
+HeapMatch(P, O, ids) == \A id \in (ids \cap DOMAIN O.heap) :
+                           /\ id \in DOMAIN P.heap /\ P.heap[id].k = O.heap[id].k /\ P.heap[id].m = O.heap[id].m
+                           /\ (IF O.heap[id].k = TMap THEN PairsMatch(P.heap[id].v, O.heap[id].v) ELSE SeqMatch(P.heap[id].v, O.heap[id].v))
+Diff(P, O, heapToo, ids) ==
    IF P.ip # O.ip THEN "ip" ELSE IF P.fn # O.fn THEN "fn"
    ELSE IF Len(P.stack) # Len(O.stack) THEN "stack depth" ELSE IF ~SeqMatch(P.stack, O.stack) THEN "stack"
    ELSE IF P.frames # O.frames THEN "frames" ELSE IF ~SeqMatch(P.globals, O.globals) THEN "globals"
-   ELSE IF heapToo /\ ~HeapMatch(P, O) THEN "heap" ELSE ""
+   ELSE IF heapToo /\ ~HeapMatch(P, O, ids) THEN "heap" ELSE ""
 HasWild(P) == \E i \in 1..Len(P.stack) : P.stack[i].t >= 99
 
 FnEnd(env, f) == IF f + 1 <= Len(env.fns) THEN env.fns[f + 1][3] + env.fns[f + 1][4] ELSE 0
@@ -78,7 +85,7 @@ JudgeOp(S, env, ev, nx) ==
        x == Step(S, I, e1) IN
    IF ~HasObs(nx) THEN Verdict("nosucc", "", x)
    ELSE LET O == ApplyObs(S, nx)
-            d == Diff(x.S, O, TRUE) IN
+            d == Diff(x.S, O, TRUE, Touched(S, e1) \cup Updated(nx)) IN
         CASE x.kind = "unspec" -> Verdict("unspec", x.why, x)
           [] x.kind = "ok" ->
                IF x.S.ip >= FnEnd(env, x.S.fn) THEN Verdict("unspec", "control leaves the function's code", x)
@@ -101,20 +108,20 @@ JudgeOp(S, env, ev, nx) ==
 \* lines that are not instructions: the host's part (vm_call_function)
 JudgeHost(S, env, ev, nx) ==
    IF nx.e = "call" THEN
-        LET x == HostCall(S, env, nx.val)  d == Diff(x.S, ApplyObs(S, nx), TRUE) IN
+        LET x == HostCall(S, env, nx.val)  d == Diff(x.S, ApplyObs(S, nx), TRUE, Updated(nx)) IN
         IF x.kind # "ok" THEN Verdict("hostunspec", x.why, x) ELSE IF d # "" THEN Verdict("hostdev", "host call: " \o d, x) ELSE Verdict("hostok", "", x)
    ELSE IF ev.e = "ret_trap" THEN
         (IF nx.e # "host_release" THEN Verdict("hostdev", "after a print/assert trap: " \o nx.e, Ok(S))
-         ELSE LET d == Diff(S, ApplyObs(S, nx), TRUE) IN IF d # "" THEN Verdict("hostdev", "host release: " \o d, Ok(S)) ELSE Verdict("hostok", "", Ok(S)))
+         ELSE LET d == Diff(S, ApplyObs(S, nx), TRUE, Updated(nx)) IN IF d # "" THEN Verdict("hostdev", "host release: " \o d, Ok(S)) ELSE Verdict("hostok", "", Ok(S)))
    ELSE IF ev.e = "ret_extern" THEN
         (IF nx.e = "end" THEN Verdict("hostok", "", Ok(S))
          ELSE IF nx.e # "host_extern" THEN Verdict("hostdev", "after an extern trap: " \o nx.e, Ok(S))
-         ELSE LET x == Ok(Push(S, AnyV))  d == Diff(x.S, ApplyObs(S, nx), FALSE) IN       \* the result and what it allocated are not specified
+         ELSE LET x == Ok(Push(S, AnyV))  d == Diff(x.S, ApplyObs(S, nx), FALSE, {}) IN       \* the result and what it allocated are not specified
               IF d # "" THEN Verdict("hostdev", "extern result: " \o d, x) ELSE Verdict("hostok", "", x))
    ELSE IF ev.e \in {"host_release", "host_extern"} THEN
         (IF nx.e = "end" THEN Verdict("hostok", "", Ok(S))
          ELSE IF nx.e \notin {"op", "fuel"} THEN Verdict("hostdev", "core resumed: " \o nx.e, Ok(S))
-         ELSE LET d == Diff(S, ApplyObs(S, nx), TRUE) IN IF d # "" THEN Verdict("hostdev", "core resumed: " \o d, Ok(S)) ELSE Verdict("hostok", "", Ok(S)))
+         ELSE LET d == Diff(S, ApplyObs(S, nx), TRUE, Updated(nx)) IN IF d # "" THEN Verdict("hostdev", "core resumed: " \o d, Ok(S)) ELSE Verdict("hostok", "", Ok(S)))
    ELSE IF ev.e \in {"ret_none", "ret_halt"} THEN
         (IF nx.e # "end" \/ nx.kind # "ok" THEN Verdict("hostdev", "run must end normally", Ok(S))
          ELSE IF Depth(S) > 0 /\ nx.val # Top(S) THEN Verdict("hostdev", "result of the run is not the value on top of the stack", Ok(S))
